@@ -28,7 +28,7 @@ CLAIMED = {
               "light-quark column identically in L and the L, L^2 coefficients of the gluon column exactly (its L-independent term within 1e-5, a ground numerical evaluation), both mass schemes; "
               "(2) A_qq,ns(1) = 0 at both orders; (3) RG structure of the L dependence derived from f^(nf+1) = A f^(nf): dA1/dL = gamma0_emb(nf) - gamma0(nf+1) on all nine entries for symbolic N "
               "(unpolarised; polarised on the gluon and light-quark columns; non-singlet matrix), and the O(a_s^2) double logs [L^2]A2 = 1/2 (A1' gamma0_emb - gamma0' A1' + beta0' A1' - 4/3 T_R gamma0_emb) "
-              "and the single logs [L]A2 = gamma1_emb(nf) - gamma1(nf+1) (NLO anomalous dimensions) on the gluon and light-quark columns, the non-singlet A_qq,ns^(2) logs, nf = 3, 4, 5 -- i.e. the complete L dependence of the O(a_s^2) matching on those columns; the O(a_s^3) triple logs through the dispatcher at 6 sample moments to 1e-12 (the code's coefficients are 16-digit decimals)."),
+              "and the single logs [L]A2 = gamma1_emb(nf) - gamma1(nf+1) (NLO anomalous dimensions) on the gluon and light-quark columns, the non-singlet A_qq,ns^(2) logs, nf = 3, 4, 5 -- i.e. the complete L dependence of the O(a_s^2) matching on those columns; the O(a_s^3) triple logs through the dispatcher at 6 sample moments to 1e-12 (the code's coefficients are 16-digit decimals). Also: the L^2 coefficient of the O(a_s^3) singlet elements against the a^3 order of the same chain rule (7 moments, 1e-4), and every O(a_s^2)/O(a_s^3) element evaluated on an empty harmonic-sum cache equals the entry of the tower (no dependence on the cache history)."),
         note=COMMON_NOTE + "Not claimed: the lower logs and sum rules at O(a_s^3) (parametrised, removable singularities at N = 2), the intrinsic heavy-quark column beyond O(a_s) (no O(a_s^2) intrinsic matching implemented), the time-like RG structure.",
         technique="contract-based deductive verification: symbolic execution over the polygamma contract + exact normal form; RG equations as specification",
         design_ref="DESIGN.md section 2, C29",
@@ -41,7 +41,7 @@ CLAIMED = {
               "number at N = 1; (2) FHMRUVV N3LO: for SYMBOLIC N the central variation equals the mean of the down and up variations for gg, gq, qg, ps, ns+, ns-, nsv and the assembled singlet block; "
               "(3) beyond leading order (unpolarised space-like orders 2-4 with both N3LO parametrisations and every variation index, time-like and polarised orders 2-3, every nf): the same sums formed "
               "from the exact terms the real code produces at N = 2 / N = 1 (harmonic sums in closed form, 40-digit evaluation) vanish within 1e-5 of the largest entry at NLO and 2e-3 at NNLO / N3LO "
-              "(the accuracy documented for the parametrisations) -- a finite domain, enumerated completely in the thorough tier."),
+              "(the accuracy documented for the parametrisations) -- a finite domain, enumerated completely in the thorough tier. The same rules through the QED-extended dispatchers for their pure-QCD entries (k,0), k = 2..4."),
         note=COMMON_NOTE + "Entries with a removable pole at N = 1 (valence sea parts) are evaluated 1e-12 away from it, not as limits. QED-extended rules beyond (1,1), (0,2) follow from the embedding C30.",
         technique="contract-based deductive verification: symbolic / exact execution over the polygamma contract + exact normal form",
         design_ref="DESIGN.md section 2, C25",
@@ -75,7 +75,7 @@ CLAIMED = {
         text=("BOUNDED stand-in (never counted as proved): deal run-time contracts on the real converters. Post-conditions are the settings listed in the property statement, phrased over the old keys: "
               "runcards.Legacy upgrades 80 flat card pairs (PTO 0-3, QED 0-2, POLE / MSBAR, nf0 given / None, mugrid / Q2grid / mu2grid, ev_op_max_order int / pair, four method names; covering sample) "
               "to cards with order = (PTO+1, QED), the same couplings and reference, masses and scheme, matching ratios, xif, x-grid, evolution scales with the default flavour number, initial point and "
-              "configuration values; EKO.read of archives laid out as 0.13 / 0.14 wrote them yields cards and an x-grid with the stored settings. One defect repaired by a fix commit (ev_op_max_order given as a pair: KeyError)."),
+              "configuration values; EKO.read of archives laid out as 0.13 / 0.14 wrote them yields cards and an x-grid with the stored settings. One defect repaired by a fix commit (ev_op_max_order given as a pair: KeyError). Archives: every leaf of both cards is compared with the stored one (non-default matching order, cores, iterations in the input)."),
         note="Bounded: finite input set stated in bounded/C41_native.py. The old archive layouts are inferred from the keys the converters read (no archive written by 0.13 / 0.14 is available offline); operators inside legacy archives and the reported matching order are not covered.",
         technique="bounded stand-in for contract-based verification: deal run-time contracts on the real converters over an enumerated input set (labelled bounded, not proved)",
         design_ref="DESIGN.md section 2, C41",
@@ -202,7 +202,7 @@ CLAIMED = {
         text=("Kernel clause at a_em = 0 for ANY number of steps (loop invariants over a symbolic iteration count), QCD orders 1-4 x QED orders 1-2, generic beta coefficients: every step of "
               "non_singlet_qed.exact equals the exact QCD non-singlet kernel of that step; every step of singlet_qed.eko_iterate (singlet and valence) exponentiates exactly "
               "embed(L_S, 0, l_+) resp. diag(l_V, l_-) with the per-step exponents of the QCD singlet.eko_iterate (proved against the real QCD code), and the accumulated kernel keeps the block "
-              "structure: photon trivial and decoupled, Sigma_Delta / V / V_Delta follow ns+ / nsV / ns-."),
+              "structure: photon trivial and decoupled, Sigma_Delta / V / V_Delta follow ns+ / nsV / ns-. The real exp_matrix is run on the exponents of a step at a_em = 0 (multiple of the identity, distinct diagonal, zero, isolated photon entry) on every path."),
         note=COMMON_NOTE + "exp_matrix through its contract on block-diagonal arguments (lemma); embedding structure of the inputs is C30; the end-to-end alpha_em -> 0 limit (numerical) is not claimed.",
         technique="contract-based deductive verification: loop-invariant cuts + symbolic execution with exact normal form",
         design_ref="DESIGN.md section 2, C14",
@@ -236,7 +236,7 @@ CLAIMED = {
               "(scalars, generic non-commuting 2x2 and 4x4 matrices; QED factors = QCD factor + a_em L gamma01 iff a_em runs); (4) non-singlet kernels end to end through the real "
               "quad_ker_qcd / ns.dispatcher, every method, orders 1-4: the lambda-series of the relative difference to the central kernel vanishes below lambda^n; "
               "(5) wiring: Lsv = ln(xi^2) of the coupling scales, matching ratios of the couplings scaled iff exponentiated, coupling lists on Operator.mu2. "
-              "Known finding F16: in QED mode the coupling lists ignore the shifted scales."),
+              "Known finding F16: in QED mode the coupling lists ignore the shifted scales. Coupling range of one operator for symbolic xi^2: exponentiated (xi^2 q2_from, xi^2 q2_to) on every stretch, expanded shifted only at the end of the stretch that reaches the target."),
         note=COMMON_NOTE + "Singlet sector through (2),(3) and the uniqueness lemma (trusted) with C08, C15/C16, C53; mixed QCDxQED terms and the threshold-crossing case are not covered.",
         technique="contract-based deductive verification: symbolic execution over truncated power series (Lie-series spec of the coupling flow) + exact polynomial normal form",
         design_ref="DESIGN.md section 2, C51",
@@ -248,7 +248,7 @@ CLAIMED = {
               "every path: a segment is flagged cliff iff it is followed by a matching (one defect repaired by a fix commit -- last segments ending on a "
               "matching scale were threshold operators); (b) parts.evolve forwards segment and flag; (c) Operator.mu2 coupling scales per scheme; "
               "(d) quad_ker_qcd / quad_ker_qed = [K(gamma, final couplings, L) x] E with the evolution kernels replaced by opaque contracts, orders 1-4, "
-              "QED orders (1,1),(2,1),(3,2), all schemes; (e) the unity shortcut of Operator.compute is taken iff the kernel at equal scales is the identity."),
+              "QED orders (1,1),(2,1),(3,2), all schemes; (e) the unity shortcut of Operator.compute is taken iff the kernel at equal scales is the identity. (a') recipes differing in the cliff flag only are different keys and recipes._create keeps both variants of the stretch ending on a matching scale."),
         note=COMMON_NOTE + "Lemma: a composition of continuous functions is continuous; E == 1 at equal couplings is C10, continuity of the couplings C15/C16. The quantitative O(epsilon) constant is not claimed.",
         technique="contract-based deductive verification: path-exhaustive symbolic execution with z3 + exact normal form, callee contracts by stubbing",
         design_ref="DESIGN.md section 2, C53",
@@ -320,7 +320,7 @@ CLAIMED = {
         text=("_dot4 proved equal to the matrix contraction on fully symbolic tensors, _dotop's value/error rule, join = e_k ... e_1 for k = 1..7 over free "
               "non-commuting symbols, _elements = image of matched_path with cliff <=> target on a matching scale for all 16 (nf0,nff) pairs with symbolic "
               "scales on every feasible path, _create = duplicate-free union for several target patterns, and managed.solve's loop structure over ghost "
-              "inventories: each recipe computed once, each target stored once as the ordered product of its parts."),
+              "inventories: each recipe computed once, each target stored once as the ordered product of its parts. The recipe list of every target is also compared with the flavour-number path of the statement written independently of Atlas (heavy quark of each matching, inverse flag)."),
         note=COMMON_NOTE + "einsum shape-uniformity assumed; inventories as maps (C37); number of targets in _create bounded (1-3 targets, 5 equality patterns).",
         technique="contract-based deductive verification: symbolic tensors, free-algebra words, path-exhaustive execution with z3",
         design_ref="DESIGN.md section 2, C02",
@@ -338,7 +338,7 @@ CLAIMED = {
         category="proof",
         text=("With arbitrary symbolic members, the rows and columns of every heavy quark/antiquark that is not active (pid > nf for evolution parts, > nf+1 for "
               "matching parts) are proved to be unit vectors with zero error, for nf 3-6, QCD and QED; unit rows/columns are proved closed under the real "
-              "_dot4 product; the path-level statement follows with C19 and C02 by induction (lemma)."),
+              "_dot4 product; the path-level statement follows with C19 and C02 by induction (lemma). The parts of a path (real recipe list, symbolic atlases, all 16 pairs) never involve nf or a heavy quark above max(nf0, nff)."),
         note=COMMON_NOTE + "All solution methods and orders are covered at once because the member matrices are arbitrary.",
         technique="contract-based deductive verification: symbolic execution + exact normal form; closure lemma proved on the real contraction",
         design_ref="DESIGN.md section 2, C52",
@@ -446,7 +446,7 @@ CLAIMED = {
         text=("build_ome forward x expanded-backward = 1 + O(a^(n+1)) in both orders for n=0..3 with generic symbolic 2x2 and 3x3 matching matrices "
               "(complete for the free algebra at degree <= 3), exact-backward = exact inverse; invert_matching_coeffs composes with arbitrary symbolic "
               "decoupling coefficients to x + O(x^5) (series ring), same for the concrete POLE/MSBAR tables for all nf, and F_up F_down = 1 + O(a^4) "
-              "for the MSbar mass decoupling factors."),
+              "for the MSbar mass decoupling factors. The tables are also checked where they are used: Couplings.a with the running switched off, up across a threshold and down again, returns a + O(a^(order+1)) (series ring, both schemes, orders 2-4)."),
         note=COMMON_NOTE + "Amitsur-Levitzki lemma (no polynomial identity of degree < 4 for 2x2 matrices). Quick tier skips the 3x3 exact inverse at n>=2.",
         technique="contract-based deductive verification: symbolic execution over generic matrices and truncated series + exact normal form",
         design_ref="DESIGN.md section 2, C22",
